@@ -166,6 +166,10 @@ func TestCheck(t *testing.T) {
 	ctx := context.Background()
 	n := int64(cfg.Pick(120, 800))
 	rep.Cases(n, func(idx int64, rng *mon.Rand) {
+		if idx%6 == 5 {
+			componentCase(ctx, rep, rng)
+			return
+		}
 		mode := gspec.Mode(idx % 3)
 		spec := gspec.Gen(rng, genOpts(rng, cfg, mode))
 		specCase(ctx, rep, rng, cfg, spec, idx < 2)
